@@ -115,6 +115,17 @@ func init() {
 					case 1:
 						alt = 0
 					}
+					// points on the axes of the projection: the origin, the equator, the prime meridian, the antimeridian
+					switch rng.Intn(12) {
+					case 0:
+						lon, lat = 0, 0
+					case 1:
+						lon = 0
+					case 2:
+						lat = 0
+					case 3:
+						lon = 180 * float64(1-2*rng.Intn(2))
+					}
 					if len(prevLon) > 0 && rng.Intn(3) == 0 {
 						r := len(prevLon) - 1
 						if rng.Intn(3) == 0 {
